@@ -2,6 +2,7 @@ import LachesisVerif.Proofs.ProcessorOrder
 import LachesisVerif.Proofs.ProcessorInv
 import LachesisVerif.Proofs.ProcessorRel
 import LachesisVerif.Proofs.ProcessorBalOps
+import LachesisVerif.Gen.FactsC15
 /-!
 # C15 — Event processor releases every event and balances its semaphore
 
@@ -340,3 +341,10 @@ example : exRun.st.sem.num = 0 ∧ exRun.st.sem.size = 0 ∧ exRun.st.relNum = 4
   decide
 
 end C15
+
+/-! ### Structural expectations (regenerated facts `Gen.FactsC15`)
+The processor model takes for granted that `Processor.Stop` terminates the semaphore, waits for the
+workers and only then clears the ordering buffer (so that no event is pushed after the clear). -/
+namespace C15Facts
+theorem stop_order : Gen.FactsC15.stopTerminatesSemaphore = true ∧ Gen.FactsC15.stopWaitsBeforeClear = true := by decide
+end C15Facts
